@@ -38,7 +38,6 @@ Section Axes.
 Variable doc : xdoc.
 Hypothesis Hinv : DocInv doc.
 Hypothesis Hshape : SpecShape doc.
-Hypothesis Hparents : ParentsOk doc.
 Let Hwf := inv_wf doc Hinv.
 
 Notation xch := (xchildren doc).
@@ -123,13 +122,57 @@ Proof.
   destruct (T_parent doc Hinv Hshape i Ti Hne) as [p [_ [Ep _]]]. rewrite E in Ep. discriminate.
 Qed.
 
-Lemma spec_parent i : T i -> s_parent doc (Row i) = option_map Row (parent_node doc i).
-Proof. intros Ti. apply (s_parent_agrees doc Hparents i). apply (T_good doc Hinv Hshape). exact Ti. Qed.
-
-Lemma spec_ancestors i al : T i -> ancestor doc i = Ok al -> ancestors doc (Row i) = map Row al.
+(** the parent of the specification ([s_parent]: the first row of the walk that lists [i] among its
+    children or attributes) is the parent observation: a listing row is the parent observation of
+    what it lists ([sh_child_parent], [sh_attr_parent]) *)
+Lemma spec_parent (i : node) : T i -> s_parent doc (Row i) = option_map Row (parent_node doc i).
 Proof.
-  intros Ti E. unfold ancestors, fuel0. unfold ancestor, nav_fuel in E.
-  apply (ancestors_agree doc Hinv Hparents _ i al); [apply (T_good doc Hinv Hshape); exact Ti|exact E].
+  intros Ti. unfold s_parent.
+  set (P := fun j => existsb (N.eqb i) (xch j) || (nkind_eqb (kind doc j) KElement && existsb (N.eqb i) (attrs j))).
+  assert (Psound : forall j, T j -> P j = true -> parent_node doc i = Some j).
+  { intros j Tj Hj. unfold P in Hj. apply orb_prop in Hj. destruct Hj as [Hj|Hj].
+    - apply existsb_eqb_in in Hj. apply (xch_kind doc Hshape j i (TV j Tj) Hj).
+    - apply andb_prop in Hj. destruct Hj as [_ Hj]. apply existsb_eqb_in in Hj.
+      apply (sh_attr_parent doc Hshape j i (TV j Tj) Hj). }
+  rewrite <- (W_root doc).
+  destruct (parent_node doc i) as [p|] eqn:Ep; cbn [option_map].
+  - destruct (T_parent_T doc Hinv Hshape i p Ti Ep) as [Tp Hip].
+    assert (Pp : P p = true).
+    { unfold P. destruct Hip as [Hip|Hip].
+      - apply orb_true_intro. left. apply existsb_eqb_in. exact Hip.
+      - apply orb_true_intro. right.
+        assert (Kp : kind doc p = KElement).
+        { destruct (kind doc p) eqn:Ek; try reflexivity; exfalso;
+            rewrite (sh_attrs doc Hshape p (TV p Tp)) in Hip by (rewrite Ek; discriminate); destruct Hip. }
+        rewrite Kp. cbn [nkind_eqb andb]. apply existsb_eqb_in. exact Hip. }
+    destruct (find P (W doc_root)) as [j|] eqn:Ef.
+    + apply find_some in Ef. destruct Ef as [Hj Pj]. pose proof (Psound j Hj Pj) as E. inversion E. reflexivity.
+    + pose proof (find_none _ _ Ef p Tp) as E. rewrite Pp in E. discriminate.
+  - destruct (find P (W doc_root)) as [j|] eqn:Ef; [|reflexivity].
+    apply find_some in Ef. destruct Ef as [Hj Pj]. pose proof (Psound j Hj Pj) as E. discriminate.
+Qed.
+
+Lemma spec_ancestors_chain : forall fuel (i : node) al, T i -> chain i al -> (length al < fuel)%nat ->
+  ancestors_fuel doc fuel (Row i) = map Row al.
+Proof.
+  induction fuel as [|f IH]; intros i al Ti Hc Hlt; [lia|]. cbn [ancestors_fuel]. rewrite (spec_parent i Ti).
+  inversion Hc as [i' E|i' p al' E Hc']; subst; rewrite E; cbn [option_map map].
+  - reflexivity.
+  - destruct (T_parent_T doc Hinv Hshape i p Ti E) as [Tp _]. f_equal. apply (IH p al' Tp Hc'). cbn [length] in Hlt. lia.
+Qed.
+
+Lemma chain_length i al : chain i al -> T i -> (length al <= N.to_nat i)%nat.
+Proof.
+  intros Hc. induction Hc as [i E|i p al E Hc IH]; intros Ti; cbn [length]; [lia|].
+  destruct (T_parent_T doc Hinv Hshape i p Ti E) as [Tp _].
+  destruct (wf_parent doc Hwf i p (TV i Ti) E) as [_ Hpi]. specialize (IH Tp). lia.
+Qed.
+
+Lemma spec_ancestors (i : node) al : T i -> ancestor doc i = Ok al -> ancestors doc (Row i) = map Row al.
+Proof.
+  intros Ti E. destruct (ancestor_ok_chain i Ti) as [al' [E' Hc]]. rewrite E in E'. inversion E'; subst al'.
+  unfold ancestors, fuel0. apply (spec_ancestors_chain _ i al Ti Hc).
+  pose proof (chain_length i al Hc Ti). pose proof (TV i Ti) as V. unfold valid in V. lia.
 Qed.
 
 (** ** sibling loops walk the child list of the parent *)
